@@ -525,16 +525,24 @@ def observe(case, tmp, seconds=5.0):
                                 for e in ents]}
         return go
 
-    obs = {"compare": guarded(op_compare(False), seconds)}
+    obs = {}
+    budget = [seconds]
+
+    def run_op(name, fn):
+        obs[name] = guarded(fn, budget[0])
+        if obs[name]["kind"] == "hang":
+            budget[0] = min(budget[0], 1.0)   # one hang is the outcome of the case; do not wait five more times
+
+    run_op("compare", op_compare(False))
     os.makedirs(os.path.join(tmp, "merge"), exist_ok=True)
-    obs["merge"] = guarded(op_compare(True), seconds)
+    run_op("merge", op_compare(True))
     shutil.rmtree(os.path.join(tmp, "merge"), ignore_errors=True)
-    obs["add"] = guarded(op_add, seconds)
+    run_op("add", op_add)
     shutil.rmtree(os.path.join(tmp, "merge"), ignore_errors=True)
-    obs["remove"] = guarded(op_remove, seconds)
-    obs["lint"] = guarded(op_lint, seconds)
-    obs["parse_ref"] = guarded(op_parse("ref", refp), seconds)
-    obs["parse_l10n"] = guarded(op_parse("l10n", l10np), seconds)
+    run_op("remove", op_remove)
+    run_op("lint", op_lint)
+    run_op("parse_ref", op_parse("ref", refp))
+    run_op("parse_l10n", op_parse("l10n", l10np))
     return obs
 
 
@@ -549,12 +557,13 @@ def dec_case(c):
 
 
 def worker_main(jobfile, start, seconds):
-    """python -m harness.props.c05 --worker JOB START SECONDS : one JSON line per case on stdout"""
+    """python -m harness.props.c05 --worker JOB START SECONDS : one JSON line per case on stdout;
+    scratch files live next to the job file (the parent removes that directory)"""
     import resource
     lim = 3 << 30     # an allocation bomb is an outcome (MemoryError), not a danger to the machine
     resource.setrlimit(resource.RLIMIT_AS, (lim, lim))
     cases = json.load(open(jobfile))
-    tmp = tempfile.mkdtemp(prefix="c05w_")
+    tmp = tempfile.mkdtemp(prefix="w_", dir=os.path.dirname(jobfile))
     out = os.fdopen(os.dup(1), "w")
     # the package prints ("copied reference to ...") while merging: keep the protocol clean
     devnull = os.open(os.devnull, os.O_WRONLY)
@@ -575,9 +584,11 @@ class Pool:
     """runs batches of cases in worker processes; a worker that stops answering or dies is
     killed/restarted and the case it was working on gets the outcome hang / crash"""
 
-    def __init__(self, nworkers, soft, hard):
+    def __init__(self, nworkers, soft, hard, max_bad=40):
         self.nworkers, self.soft, self.hard = nworkers, soft, hard
         self.spawned = 0
+        self.bad = 0              # hangs / crashes seen so far
+        self.max_bad = max_bad    # after that many, the rest of the run is abandoned (not-run)
 
     def run_batch(self, batch, results, lock):
         tmpd = tempfile.mkdtemp(prefix="c05job_")
@@ -588,6 +599,8 @@ class Pool:
         try:
             while start < len(batch):
                 with lock:
+                    if self.bad >= self.max_bad:
+                        return
                     self.spawned += 1
                 proc = subprocess.Popen(
                     [common.PY, "-m", "harness.props.c05", "--worker", job, str(start), str(self.soft)],
@@ -615,6 +628,8 @@ class Pool:
                                 i, obs = json.loads(line)
                                 with lock:
                                     results[batch[i][0]] = obs
+                                    if any(o.get("kind") == "hang" for o in obs.values()):
+                                        self.bad += 1
                                 start = i + 1
                                 current = None
                     elif time.time() - last > self.hard:
@@ -632,6 +647,7 @@ class Pool:
                     outcome = "crash"
                 idx = current if current is not None else start
                 with lock:
+                    self.bad += 1
                     results[batch[idx][0]] = {"process": {"kind": outcome, "rc": proc.returncode,
                                                           "stderr": err}}
                 start = idx + 1
@@ -950,16 +966,17 @@ def skipsort_row(case, obs, keytexts):
         impl = [1, common.TAGS["TypeError"]]
     else:
         return None
-    n_results = n_junk = 0
+    n_junk = 0
+    bad_keys = set()        # an entity is listed once, whatever the number of its errors
     for msg in messages(obs["compare"], "error"):
         if msg.startswith('Unparsed content "'):
             n_junk += 1
             continue
         for kt in keytexts:
             if msg.endswith(" for " + kt) and POS_TAIL.search(msg[:-len(" for " + kt)]):
-                n_results += 1
+                bad_keys.add(kt)
                 break
-    return (5, [n_results, n_junk]), impl
+    return (5, [len(bad_keys), n_junk]), impl
 
 
 def nontrivial(obs):
@@ -1170,9 +1187,11 @@ def confirm_hangs(cases, results, pool):
     idx = [i for i, o in enumerate(results)
            if o is None or "process" in o and o["process"]["kind"] == "hang"
            or "process" not in o and any(o[op]["kind"] == "hang" for op in OPS + ["parse_ref", "parse_l10n"])]
+    idx = [i for i in idx if results[i] is not None]      # None: abandoned, reported as not run
     if not idx:
         return 0
-    slow = Pool(min(4, len(idx)), soft=20.0, hard=90.0)
+    idx = idx[:6]           # a few confirmations tell slow from stuck; the others keep their outcome
+    slow = Pool(min(3, len(idx)), soft=20.0, hard=90.0)
     again = slow.run([cases[i] for i in idx], 1)
     for i, o in zip(idx, again):
         results[i] = o if o is not None else {"process": {"kind": "hang", "rc": None, "stderr": ""}}
@@ -1205,6 +1224,7 @@ def run(chk, runner_ok):
     sampled = 0
     skel, skips = [], []
     slowest = (0.0, None, None)
+    abandoned = 0
     for case, obs in zip(cases, results):
         key = (case["ft"], case["ref"], case["l10n"])
         chk.evaluations += 1
@@ -1212,7 +1232,7 @@ def run(chk, runner_ok):
             import hashlib
             chk.distinct.add(hashlib.sha1(repr(key).encode()).digest()[:8])
         if obs is None:
-            chk.fail(case["ft"] + "-not-run", describe(case), "no observation")
+            abandoned += 1
             continue
         chk.hist("stream", case["stream"])
         chk.hist("type", case["ft"])
@@ -1236,14 +1256,17 @@ def run(chk, runner_ok):
                                              key=len, reverse=True)) if parse else None
         if row:
             skips.append((row[0], row[1], describe(case)))
-            chk.hist("android_skips", "%d results, %d junk" % (min(row[0][1][0], 3), min(row[0][1][1], 3)))
+            chk.hist("android_skips", "%d entities, %d junk" % (min(row[0][1][0], 3), min(row[0][1][1], 3)))
         if sampled < 3 and case["stream"] == "mutated" and "process" not in obs \
                 and obs["compare"]["kind"] == "ok" and obs["compare"]["details"]:
             sampled += 1
             chk.sample({"suite": "ROBUST", **describe(case),
                         "compare_details": obs["compare"]["details"][:1],
                         "lint": obs["lint"].get("results", [])[:2]})
-    chk.suites.append({"name": "ROBUST", "cases": len(cases), "disagreements": 0})
+    if abandoned:
+        chk.fail("robust-run-abandoned", {"cases_not_run": abandoned},
+                 f"the run was cut short after {pool.bad} hangs/crashes (each is reported on its own)")
+    chk.suites.append({"name": "ROBUST", "cases": len(cases) - abandoned, "disagreements": 0})
     chk.notes.append(f"ROBUST: {len(cases)} pairs x 5 entry points in {pool.spawned} worker processes "
                      f"({nw} at a time), {wall:.1f}s; {rechecked} case(s) re-run alone after a watchdog hit; "
                      f"soft watchdog {pool.soft}s per entry point, hard {pool.hard}s per case")
